@@ -345,7 +345,12 @@ def merge_structure(P, rep, rule="MERGE"):
     if len(fs) != 1:
         raise AnalysisBroken("Parameters::get(name, points): %d candidates" % len(fs))
     F = fs[0]
-    R = lambda n: norm.render(P, n, nocast=True).replace(" ", "")
+    R = lambda n: norm.render(P, n, nocast=True).replace(" ", "").replace(".push_back(", ".emplace_back(")
+    miss = astq.missing_anchors(P, F, ["coordinate_pair_i", "found_same_point", "value", "coordinate_0", "coordinate_1", "result", "default_value",
+                                       "addition_points", "addition_point"])
+    if miss:
+        rep.unknown(rule, "Parameters::get(name, points): the locals %s this rule is written over no longer exist (renamed?)" % miss)
+        return
     problems = []
     # match loop
     loops = [x for x in F.walk() if x.get("k") == "ForStmt" and "coordinate_pair_i" in R(x["c"][1])]
@@ -668,6 +673,10 @@ def kd_structure(P, rep, rule="KD"):
                    "test use the same axis; build and search compute the same mid = (left+right)>>1; every visited node updates the minimum")
     for fname, best in (("find_closest_points_recursive", "index_distances.min_distance"), ("find_closest_point_recursive", "index_distance.distance")):
         F = P.func("WorldBuilder::KDTree::KDTree::" + fname)
+        miss = astq.missing_anchors(P, F, ["check_point", "node", "y_axis", "mid", "left", "right", "distance", best.split(".")[0]])
+        if miss:
+            rep.unknown(rule, "%s: the names %s this rule is written over no longer exist (renamed?)" % (fname, miss))
+            continue
         R = lambda n: norm.render(P, n, nocast=True).replace(" ", "")
         top = [x for x in astq.stmts_of(F.body) if x.get("k") == "IfStmt"]
         if len(top) != 1:
